@@ -124,6 +124,7 @@ type world struct {
 	parked   atomic.Bool
 	resume   chan struct{}
 	slowGate chan struct{} // non-nil: the consumer waits for a token before each receive
+	drained  bool          // a slow consumer was handed enough tokens to receive everything that is pending
 }
 
 func (w *world) stamp() int64 { return w.clk.Add(1) }
@@ -288,7 +289,7 @@ func (w *world) invariants(promptConsumer bool) {
 	// (3) the last Add is followed by a signal (logical clock), unless closed before its deadline
 	last := adds[len(adds)-1]
 	lastDeadline := times[len(times)-1].Add(w.c.Max)
-	if (endAt.IsZero() || lastDeadline.Before(endAt)) && lastDeadline.Before(now) {
+	if (promptConsumer || w.drained) && (endAt.IsZero() || lastDeadline.Before(endAt)) && lastDeadline.Before(now) {
 		ok := false
 		for _, s := range sigs {
 			if s.stamp > last.call {
@@ -382,7 +383,7 @@ func TestCheck(t *testing.T) {
 	rec = mon.Open("C09")
 	defer rec.Close()
 	rec.Note("rule", "a case is one timeline against the real limiter in a synctest bubble: (lockstep) seeded Add/burst/sleep sequences with sleeps to just before, exactly at and just after the reference window end, compared signal-for-signal with the statement's automaton; (racing) bursts from 2-8 goroutines at shared virtual instants with a prompt or slow consumer, ended by Close or cancel at a seeded instant, judged by the conservation and bounded-progress invariants; (directed) the run loop parked at loop.top / input.recv / timer.recv while Add / Close / cancel are issued. Non-trivial = at least two Adds or a placed operation; distinct = distinct (config, step list).")
-	rec.Note("require", []string{"park.loop.top", "park.input.recv", "park.timer.recv", "lockstep.signals_matched", "lockstep.window_end_exact", "lockstep.cap_fired", "racing.adds", "lockstep.burst_owed_signal", "shutdown.close", "shutdown.cancel", "directed.close_while_parked"})
+	rec.Note("require", []string{"park.loop.top", "park.input.recv", "park.timer.recv", "lockstep.signals_matched", "lockstep.window_end_exact", "lockstep.cap_fired", "racing.adds", "racing.shutdown_with_undelivered_signals", "lockstep.burst_owed_signal", "shutdown.close", "shutdown.cancel", "directed.close_while_parked"})
 	ps := plans()
 	rec.Planned(len(ps))
 	for idx, pl := range ps {
@@ -662,17 +663,25 @@ func runRacing(t *testing.T, idx int, rng *mon.RNG) {
 		if d := endAt - time.Since(start); d > 0 {
 			time.Sleep(d)
 		}
-		if slow {
-			// the consumer now drains everything that is pending, then keeps up
+		// a slow consumer either drains everything that is pending before the end, or never reads at
+		// all: Close / cancel with signals still undelivered must release the delivery goroutines
+		drain := !slow || rng.Bool()
+		if slow && drain {
+			w.drained = true
 			for i := 0; i < total+2; i++ {
 				w.slowGate <- struct{}{}
 			}
+		}
+		if slow && !drain {
+			rec.Count("racing.shutdown_with_undelivered_signals", 1)
 		}
 		if endAt > horizon {
 			wg.Wait()
 			synctest.Wait()
 			w.invariants(!slow)
 		}
+		slowUndrained := slow && !drain
+		_ = slowUndrained
 		rec.Count("shutdown."+how, 1)
 		cand := w.shutdown(how)
 		wg.Wait()
